@@ -7,21 +7,23 @@ Model: `P2sh.FileRead`; specification: `P2sh.Spec.FileIo`.
 
 * `chunkSrc_conforms`, `bufSrc_conforms` — pipes fed in any chunks and `BufReader` over any
   conforming source are conforming sources (so the theorems below cover them);
-* `prefix_law` — for every conforming source, handle and call sequence, what the calls consumed, in
-  order, followed by what the source still holds, is the original content: nothing is duplicated,
-  reordered or skipped (`call_data`: a non-error result *is* what the call consumed);
+* `read_all_any_schedule` — for **every** conforming source (every chunk schedule) `read_from_file`
+  returns the next `min num remaining` bytes; `read_all_everything`: `read(f)` returns all that remains;
+* `prefix_law` — for every conforming source and call sequence, what the calls consumed, in order,
+  followed by what the source still holds, is the original content: nothing is duplicated, reordered
+  or skipped (`call_data`: a non-error result *is* what the call consumed);
 * `read_to_string_all`, `read_line_law` — `read_to_string` consumes everything that remains and
-  `read_line` returns exactly the next line, for every conforming source (any schedule);
-* `read_all_any_schedule_partial` — `read(f[, n])` returns `min n remaining` bytes when the source
-  never returns short before its end; the full form `read_all_any_schedule` (for every conforming
-  source) is FALSE on the current code: `read_all_any_schedule_false` is the witness of the statement
-  (a reader that returns 1 byte, then the rest), `buffered_short_read_witness` the same through a
-  `BufReader` whose buffer was partly consumed; `read_all_any_schedule_fixed` proves the full form for
-  the repaired loop (`readLoopFixed`);
-* `mode_table_partial` — `open`'s flags realise the documented table except `a` on a missing file
-  (`mode_a_missing_witness`: ENOENT instead of "create it"); `write_contents` — after a normal end or a
-  flush the file holds what the open left plus exactly the bytes written (`exit_loses_buffer`: not
-  after `exit`).
+  `read_line` returns exactly the next line, for every conforming source;
+* `mode_table` — `open`'s flags realise the documented table r/w/a/x on existing and missing files;
+* `write_contents` — opened with w, a or x, written, and ended in any way (normal end, flush, exit,
+  flush + exit), the file holds what the open left followed by exactly the bytes written.
+
+Each theorem is followed by a closed `example` showing that it is not vacuous.
+
+History: until the repairs 1d58337 (read loop ended at the first short read, F16), c1bd463 (`a` did
+not create, F17), 4a4909b (`read_to_string(stdin)` was a runtime error, F31) and e03497a (`exit` lost
+buffered writes, F32) the first, fourth and fifth statement were false; the model now is the repaired
+code, and reverting any of them makes model and implementation disagree on the correspondence run.
 -/
 namespace P2sh.Props.C21
 open P2sh P2sh.FileRead
@@ -128,46 +130,19 @@ theorem readLoop_prefix {σ : Type} (R : Src σ) (hR : Conforms R) (num : Nat) :
         have hs := hR.split s (min CHUNK (num - total))
         have : (R.read s (min CHUNK (num - total))).1 = [] := List.length_eq_zero_iff.mp h0
         simpa [this] using hs
-      · split
-        · exact hR.split _ _
-        · simp only [List.append_assoc]
-          rw [ih]; exact hR.split _ _
+      · simp only [List.append_assoc]
+        rw [ih]; exact hR.split _ _
     · simp
 
 theorem readFromFile_prefix {σ : Type} (R : Src σ) (hR : Conforms R) (s : σ) (num : Nat) :
     (readFromFile R s num).1 ++ R.rem (readFromFile R s num).2 = R.rem s :=
   readLoop_prefix R hR num _ s 0
 
-theorem readLoopFixed_prefix {σ : Type} (R : Src σ) (hR : Conforms R) (num : Nat) :
-    ∀ (fuel : Nat) (s : σ) (total : Nat),
-      (readLoopFixed R num fuel s total).1 ++ R.rem (readLoopFixed R num fuel s total).2 = R.rem s := by
-  intro fuel
-  induction fuel with
-  | zero => intro s total; simp [readLoopFixed]
-  | succ fuel ih =>
-    intro s total
-    simp only [readLoopFixed]
-    split
-    · split
-      · rename_i h0
-        have hs := hR.split s (min CHUNK (num - total))
-        have : (R.read s (min CHUNK (num - total))).1 = [] := List.length_eq_zero_iff.mp h0
-        simpa [this] using hs
-      · simp only [List.append_assoc]
-        rw [ih]; exact hR.split _ _
-    · simp
-
-theorem readFromFileV_prefix {σ : Type} (fixed : Bool) (R : Src σ) (hR : Conforms R) (s : σ) (num : Nat) :
-    (readFromFileV fixed R s num).1 ++ R.rem (readFromFileV fixed R s num).2 = R.rem s := by
-  cases fixed
-  · exact readFromFile_prefix R hR s num
-  · exact readLoopFixed_prefix R hR num _ s 0
-
 theorem prefix_eq_take {α : Type} (a b l : List α) (h : a ++ b = l) : a = l.take a.length := by
   subst h; simp
 
-/-- `read_from_file` on a source that never returns short before its end -/
-theorem readLoop_full {σ : Type} (R : Src σ) (hR : Conforms R) (hF : Full R) (num : Nat) :
+/-- the loop returns all of `min (num - total) remaining`, for every conforming source -/
+theorem readLoop_all {σ : Type} (R : Src σ) (hR : Conforms R) (num : Nat) :
     ∀ (fuel : Nat) (s : σ) (total : Nat), (R.rem s).length < fuel →
       (readLoop R num fuel s total).1 = (R.rem s).take (num - total) := by
   intro fuel
@@ -176,77 +151,6 @@ theorem readLoop_full {σ : Type} (R : Src σ) (hR : Conforms R) (hF : Full R) (
   | succ fuel ih =>
     intro s total hf
     simp only [readLoop]
-    split
-    · rename_i hlt
-      have hsplit := hR.split s (min CHUNK (num - total))
-      have hlen := hF s (min CHUNK (num - total))
-      have htake := prefix_eq_take _ _ _ hsplit
-      have hpos : 0 < min CHUNK (num - total) := by simp [CHUNK]; omega
-      split
-      · rename_i h0
-        have : (R.rem s).length = 0 := by omega
-        have : R.rem s = [] := List.length_eq_zero_iff.mp this
-        simp [this]
-      · split
-        · rename_i hne hshort
-          -- the source ended inside this read
-          have hall : (R.read s (min CHUNK (num - total))).1.length = (R.rem s).length := by omega
-          rw [htake, hall, List.take_length]
-          rw [List.take_of_length_le]; omega
-        · rename_i hne hfull
-          have hfull' : (R.read s (min CHUNK (num - total))).1.length = min CHUNK (num - total) := by
-            have := hR.le s (min CHUNK (num - total)); omega
-          have hrest : R.rem (R.read s (min CHUNK (num - total))).2 = (R.rem s).drop (min CHUNK (num - total)) := by
-            rw [rest_eq_drop _ _ _ hsplit, hfull']
-          have hfuel : (R.rem (R.read s (min CHUNK (num - total))).2).length < fuel := by
-            rw [hrest, List.length_drop]; omega
-          simp only []
-          rw [ih _ _ hfuel, hrest, hfull']
-          conv => lhs; rw [htake, hfull']
-          have : num - total = min CHUNK (num - total) + (num - (total + min CHUNK (num - total))) := by omega
-          conv => rhs; rw [this, List.take_add]
-    · rename_i hge
-      have : num - total = 0 := by omega
-      simp [this]
-
-/-- **read(f[, n]) over sources that never return short**: the next `min n remaining` bytes -/
-theorem read_all_any_schedule_partial {σ : Type} (R : Src σ) (hR : Conforms R) (hF : Full R) (s : σ) (num : Nat) :
-    (readFromFile R s num).1 = (R.rem s).take num := by
-  have := readLoop_full R hR hF num ((R.rem s).length + 1) s 0 (by omega)
-  simpa [readFromFile] using this
-
-/-- the full statement for **any** conforming source — what the code should satisfy -/
-def ReadAllAnySchedule : Prop :=
-  ∀ (cs : List Bytes), (readFromFile chunkSrc cs USIZE_MAX).1 = cs.flatten
-
-/-- **witness** that the full form fails on the current loop: a reader that returns 1 byte, then
-the rest (a pipe written as `[1]`, pause, `[2, 3]`): `read(stdin)` returns `[1]` -/
-theorem read_all_any_schedule_false : ¬ ReadAllAnySchedule := by
-  intro h
-  have := h [[1], [2, 3]]
-  revert this
-  decide
-
-/-- the same through a `BufReader` (capacity 4 for the sake of a small witness): after `read(f, 1)`
-took one byte of the buffer, `read(f)` returns only what the buffer still holds -/
-theorem buffered_short_read_witness :
-    let src := bufSrc 4 chunkSrc
-    let st0 : Bytes × List Bytes := ([], [[1, 2, 3, 4, 5, 6, 7, 8, 9]])
-    let r1 := readFromFile src st0 1
-    let r2 := readFromFile src r1.2 USIZE_MAX
-    r1.1 = [1] ∧ r2.1 = [2, 3, 4] ∧ src.rem r2.2 = [5, 6, 7, 8, 9] := by
-  decide
-
-/-- the repaired loop: all of `min num remaining`, for every conforming source -/
-theorem readLoopFixed_all {σ : Type} (R : Src σ) (hR : Conforms R) (num : Nat) :
-    ∀ (fuel : Nat) (s : σ) (total : Nat), (R.rem s).length < fuel →
-      (readLoopFixed R num fuel s total).1 = (R.rem s).take (num - total) := by
-  intro fuel
-  induction fuel with
-  | zero => intro s total h; omega
-  | succ fuel ih =>
-    intro s total hf
-    simp only [readLoopFixed]
     split
     · rename_i hlt
       have hsplit := hR.split s (min CHUNK (num - total))
@@ -279,10 +183,25 @@ theorem readLoopFixed_all {σ : Type} (R : Src σ) (hR : Conforms R) (num : Nat)
       have : num - total = 0 := by omega
       simp [this]
 
-theorem read_all_any_schedule_fixed {σ : Type} (R : Src σ) (hR : Conforms R) (s : σ) (num : Nat) :
-    (readLoopFixed R num ((R.rem s).length + 1) s 0).1 = (R.rem s).take num := by
-  have := readLoopFixed_all R hR num ((R.rem s).length + 1) s 0 (by omega)
-  simpa using this
+/-- **read_all_any_schedule**: for every conforming source — every way the operating system may
+chunk the input — `read_from_file(reader, num)` returns exactly the next `min num remaining` bytes;
+with `num = usize::MAX` (`read(f)`) that is the whole remaining content -/
+theorem read_all_any_schedule {σ : Type} (R : Src σ) (hR : Conforms R) (s : σ) (num : Nat) :
+    (readFromFile R s num).1 = (R.rem s).take num := by
+  have := readLoop_all R hR num ((R.rem s).length + 1) s 0 (by omega)
+  simpa [readFromFile] using this
+
+/-- non-vacuity: a pipe that delivers 1 byte, then the rest (the schedule on which the loop used to
+stop early), and a 3-byte request across two chunks -/
+example : Conforms chunkSrc ∧ (readFromFile chunkSrc [[1], [2, 3]] USIZE_MAX).1 = [1, 2, 3] ∧
+    (readFromFile chunkSrc [[1, 2], [3, 4]] 3).1 = [1, 2, 3] := ⟨chunkSrc_conforms, by decide, by decide⟩
+
+/-- … also through a `BufReader` (capacity 4 to keep the witness small) whose buffer was partly
+consumed by an earlier `read(f, 1)` -/
+example :
+    let src := bufSrc 4 chunkSrc
+    let r1 := readFromFile src ([], [[1, 2, 3, 4, 5, 6, 7, 8, 9]]) 1
+    r1.1 = [1] ∧ (readFromFile src r1.2 USIZE_MAX).1 = [2, 3, 4, 5, 6, 7, 8, 9] := by decide
 
 /-! ### `read_line`, `read_to_string` -/
 
@@ -367,6 +286,9 @@ theorem read_to_string_all {σ : Type} (R : Src σ) (hR : Conforms R) (st : Byte
   rw [hall] at hpre
   exact List.append_right_eq_self.mp hpre |> fun h => h
 
+/-- non-vacuity: buffered bytes plus two chunks -/
+example : (readToEnd chunkSrc ([7], [[1], [2, 3]])).1 = [7, 1, 2, 3] := by decide
+
 theorem line_of_newline : ∀ (a b : Bytes) (i : Nat), newlineIdx a = some i →
     Spec.FileIo.line (a ++ b) = a.take (i + 1)
   | [], _, _, h => by simp [newlineIdx] at h
@@ -446,27 +368,29 @@ theorem read_line_law {σ : Type} (cap : Nat) (hcap : 0 < cap) (R : Src σ) (hR 
         simp only []
         rw [this, line_no_newline _ _ hi]
 
+/-- non-vacuity: a line that spans two chunks, through a `BufReader` of capacity 2 -/
+example : (readUntil 2 chunkSrc 10 ([], [[104, 105], [33, 10, 120]])).1 = [104, 105, 33, 10] ∧
+    Spec.FileIo.line [104, 105, 33, 10, 120] = [104, 105, 33, 10] := by decide
+
 /-! ### the prefix law for call sequences -/
 
-theorem call_prefix {σ : Type} (fx : Fixes) (R : Src σ) (hR : Conforms R) (h : Handle) (st : Bytes × σ) (c : Call) :
-    (call fx R h st c).2.1 ++ ((call fx R h st c).2.2.1 ++ R.rem (call fx R h st c).2.2.2) = st.1 ++ R.rem st.2 := by
+theorem call_prefix {σ : Type} (R : Src σ) (hR : Conforms R) (st : Bytes × σ) (c : Call) :
+    (call R st c).2.1 ++ ((call R st c).2.2.1 ++ R.rem (call R st c).2.2.2) = st.1 ++ R.rem st.2 := by
   have hB := bufSrc_conforms BUF (by decide) R hR
   cases c with
-  | readAll => exact readFromFileV_prefix fx.readLoop (bufSrc BUF R) hB st USIZE_MAX
-  | readN n => exact readFromFileV_prefix fx.readLoop (bufSrc BUF R) hB st (asUsize n)
+  | readAll => exact readFromFile_prefix (bufSrc BUF R) hB st USIZE_MAX
+  | readN n => exact readFromFile_prefix (bufSrc BUF R) hB st (asUsize n)
   | readLine => exact readUntil_prefix BUF R hR _ st
   | readToString =>
-    by_cases hc : h = .stdin ∧ fx.stdinToString = false
-    · simp [call, hc]
-    · have hp := drain_prefix R hR ((R.rem st.2).length + 1) st.2
-      simp only [call, hc, if_false, readToEnd, List.nil_append, List.append_assoc]
-      rw [hp]
+    have hp := drain_prefix R hR ((R.rem st.2).length + 1) st.2
+    simp only [call, readToEnd, List.nil_append, List.append_assoc]
+    rw [hp]
 
 /-- a result that carries data carries exactly what the call consumed -/
-theorem call_data {σ : Type} (fx : Fixes) (R : Src σ) (h : Handle) (st : Bytes × σ) (c : Call) :
-    match (call fx R h st c).1 with
-    | .bytes b => b = (call fx R h st c).2.1
-    | .str b => b = (call fx R h st c).2.1
+theorem call_data {σ : Type} (R : Src σ) (st : Bytes × σ) (c : Call) :
+    match (call R st c).1 with
+    | .bytes b => b = (call R st c).2.1
+    | .str b => b = (call R st c).2.1
     | _ => True := by
   cases c with
   | readAll => simp [call]
@@ -476,18 +400,16 @@ theorem call_data {σ : Type} (fx : Fixes) (R : Src σ) (h : Handle) (st : Bytes
     generalize readUntil BUF R _ st = r
     cases utf8Valid r.1 <;> simp
   | readToString =>
-    by_cases hc : h = .stdin ∧ fx.stdinToString = false
-    · simp [call, hc]
-    · simp only [call, hc, if_false]
-      generalize readToEnd R st = r
-      cases utf8Valid r.1 <;> simp
+    simp only [call]
+    generalize readToEnd R st = r
+    cases utf8Valid r.1 <;> simp
 
-/-- **prefix law**: for every conforming source (every chunk schedule), every handle and every
-sequence of calls — on the unchanged tree and with any of the repairs — the bytes consumed by the
-calls, in order, followed by what is still unread, are the original content -/
-theorem prefix_law {σ : Type} (fx : Fixes) (R : Src σ) (hR : Conforms R) (h : Handle) :
+/-- **prefix law**: for every conforming source (every chunk schedule) and every sequence of
+`read(f)`, `read(f, n)`, `read_line(f)`, `read_to_string(f)` calls on one handle, the bytes consumed
+by the calls, in order, followed by what is still unread, are the original content -/
+theorem prefix_law {σ : Type} (R : Src σ) (hR : Conforms R) :
     ∀ (calls : List Call) (st : Bytes × σ),
-      (consumed fx R h st calls).1 ++ ((consumed fx R h st calls).2.1 ++ R.rem (consumed fx R h st calls).2.2)
+      (consumed R st calls).1 ++ ((consumed R st calls).2.1 ++ R.rem (consumed R st calls).2.2)
         = st.1 ++ R.rem st.2 := by
   intro calls
   induction calls with
@@ -495,19 +417,29 @@ theorem prefix_law {σ : Type} (fx : Fixes) (R : Src σ) (hR : Conforms R) (h : 
   | cons c cs ih =>
     intro st
     simp only [consumed, List.append_assoc]
-    rw [ih]; exact call_prefix fx R hR h st c
+    rw [ih]; exact call_prefix R hR st c
 
-/-- with the repair of F16, `read(f)` returns everything that remains — for every conforming
-source, i.e. whatever the chunk schedule (contents shorter than `usize::MAX`) -/
-theorem read_all_any_schedule_repaired {σ : Type} (fx : Fixes) (hfx : fx.readLoop = true) (R : Src σ) (hR : Conforms R)
-    (h : Handle) (st : Bytes × σ) (hlen : (st.1 ++ R.rem st.2).length ≤ USIZE_MAX) :
-    (call fx R h st .readAll).2.1 = st.1 ++ R.rem st.2 := by
+/-- **read(f) returns everything that remains**, whatever the schedule (contents shorter than `usize::MAX`) -/
+theorem read_all_everything {σ : Type} (R : Src σ) (hR : Conforms R) (st : Bytes × σ)
+    (hlen : (st.1 ++ R.rem st.2).length ≤ USIZE_MAX) :
+    (call R st .readAll).2.1 = st.1 ++ R.rem st.2 := by
   have hB := bufSrc_conforms BUF (by decide) R hR
-  have := readLoopFixed_all (bufSrc BUF R) hB USIZE_MAX (((bufSrc BUF R).rem st).length + 1) st 0 (by omega)
-  simp only [Nat.sub_zero] at this
-  simp only [call, hfx, readFromFileV, if_true]
+  have := read_all_any_schedule (bufSrc BUF R) hB st USIZE_MAX
+  simp only [call]
   rw [this]
   exact List.take_of_length_le hlen
+
+/-- non-vacuity: read(f, 2), read_line, read(f) on a pipe of three chunks consume `1 2 | 3 10 | 5 6`
+and leave nothing -/
+example :
+    let r := consumed chunkSrc ([], [[1, 2, 3], [10, 5], [6]]) [.readN 2, .readLine, .readAll]
+    r.1 = [1, 2, 3, 10, 5, 6] ∧ r.2.1 ++ chunkSrc.rem r.2.2 = [] ∧
+    runCalls chunkSrc ([], [[1, 2, 3], [10, 5], [6]]) [.readN 2, .readLine, .readAll]
+      = [.bytes [1, 2], .str [3, 10], .bytes [5, 6]] := by
+  refine ⟨by decide, by decide, ?_⟩
+  simp [runCalls, call, readFromFile, readLoop, bufSrc, bufRead, chunkSrc, chunkRead, readUntil, newlineIdx,
+    utf8Valid, BUF, CHUNK, USIZE_MAX, asUsize]
+  decide
 
 /-! ### `open` modes and written files -/
 
@@ -515,36 +447,23 @@ def modeString : Spec.FileIo.Mode → String
   | .r => "r" | .w => "w" | .a => "a" | .x => "x"
 
 /-- what the model's `open` does on a path, in the specification's terms -/
-def modelOpen (fx : Fixes) (m : Spec.FileIo.Mode) (existing : Option Bytes) : Option Bytes :=
-  match openOpts fx (modeString m) with
+def modelOpen (m : Spec.FileIo.Mode) (existing : Option Bytes) : Option Bytes :=
+  match openOpts (modeString m) with
   | none => none
   | some o => match osOpen o existing with
     | .ok c => some c
     | .error _ => none
 
-/-- the documented table, as a statement about the model -/
-def ModeTable (fx : Fixes) : Prop := ∀ m existing, modelOpen fx m existing = Spec.FileIo.openSpec m existing
+/-- **mode table**: `open` realises the documented table — r: must exist; w: create or truncate;
+a: create or append; x: create, failing if it exists -/
+theorem mode_table (m : Spec.FileIo.Mode) (existing : Option Bytes) :
+    modelOpen m existing = Spec.FileIo.openSpec m existing := by
+  cases m <;> cases existing <;> simp [modelOpen, modeString, openOpts, osOpen, Spec.FileIo.openSpec]
 
-/-- **mode table**: `open` realises the documented table, except `a` on a missing file -/
-theorem mode_table_partial (fx : Fixes) (m : Spec.FileIo.Mode) (existing : Option Bytes)
-    (hex : ¬ (m = .a ∧ existing = none)) : modelOpen fx m existing = Spec.FileIo.openSpec m existing := by
-  cases m <;> cases existing <;> simp_all [modelOpen, modeString, openOpts, osOpen, Spec.FileIo.openSpec]
-
-/-- **witness**: `open(p, "a")` on a missing file is ENOENT although the table says "create it" -/
-theorem mode_a_missing_witness :
-    modelOpen {} .a none = none ∧ Spec.FileIo.openSpec .a none = some [] ∧
-    (openOpts {} "a").map (fun o => osOpen o none) = some (.error .enoent) := by
-  simp [modelOpen, modeString, openOpts, osOpen, Spec.FileIo.openSpec]
-
-theorem mode_table_false : ¬ ModeTable {} := by
-  intro h
-  have := h .a none
-  simp [modelOpen, modeString, openOpts, osOpen, Spec.FileIo.openSpec] at this
-
-/-- with the repair of F17 (`create(true)` for mode `a`) the whole documented table holds -/
-theorem mode_table_repaired (fx : Fixes) (hfx : fx.appendCreates = true) : ModeTable fx := by
-  intro m existing
-  cases m <;> cases existing <;> simp_all [modelOpen, modeString, openOpts, osOpen, Spec.FileIo.openSpec]
+/-- non-vacuity: the four corners that differ between the modes -/
+example : modelOpen .a none = some [] ∧ modelOpen .a (some [1]) = some [1] ∧ modelOpen .x (some [1]) = none ∧
+    modelOpen .r none = none ∧ modelOpen .w (some [1]) = some [] := by
+  simp [modelOpen, modeString, openOpts, osOpen]
 
 theorem bufw_write_inv (w : BufW) (d : Bytes) :
     (w.write d).1.file ++ (w.write d).1.buf = w.file ++ w.buf ++ d ∧ (w.write d).2 = d.length := by
@@ -573,22 +492,20 @@ theorem writes_inv (ws : List Bytes) : ∀ (acc : BufW × List Nat),
     · rw [h.1, hw.1]; simp [List.append_assoc]
     · rw [h.2, hw.2]; simp [List.append_assoc]
 
-/-- **written files**: opened with `w`, `a` or `x`, written, then flushed or closed at a normal
-program end (or ended by `exit` once F32 is repaired), the file holds what the open left followed by exactly the bytes written, and every
-`write` returned the length of its data -/
-theorem write_contents (fx : Fixes) (mode : String) (o : OpenOpts) (existing : Option Bytes) (c : Bytes) (writes : List Bytes)
-    (e : Ending) (hm : openOpts fx mode = some o) (ho : osOpen o existing = .ok c) (hr : o.read = false)
-    (he : e ≠ .exit ∨ fx.exitFlushes = true) :
-    writeRun fx mode existing writes e = (.handle, writes.map List.length, some (c ++ writes.flatten)) := by
+/-- **written files**: opened with `w`, `a` or `x`, written, and ended in any way — the script
+running to its end, `flush(f)`, `exit(0)`, or both — the file holds what the open left followed by
+exactly the bytes written, and every `write` returned the length of its data -/
+theorem write_contents (mode : String) (o : OpenOpts) (existing : Option Bytes) (c : Bytes) (writes : List Bytes)
+    (e : Ending) (hm : openOpts mode = some o) (ho : osOpen o existing = .ok c) (hr : o.read = false) :
+    writeRun mode existing writes e = (.handle, writes.map List.length, some (c ++ writes.flatten)) := by
   have h := writes_inv writes ({ file := c }, [])
   simp only [List.append_nil, List.nil_append] at h
   simp only [writeRun, hm, ho, hr]
   cases e <;> simp_all [BufW.flush]
 
-/-- **witness**: `write(f, "data"); exit(0)` leaves the file empty -/
-theorem exit_loses_buffer :
-    writeRun {} "w" none [[100, 97, 116, 97]] .exit = (.handle, [4], some []) ∧
-    writeRun {} "w" none [[100, 97, 116, 97]] .normal = (.handle, [4], some [100, 97, 116, 97]) := by
+/-- non-vacuity: `write(f, "data"); exit(0)` under w on a missing file, and an append to an existing one -/
+example : writeRun "w" none [[100, 97, 116, 97]] .exit = (.handle, [4], some [100, 97, 116, 97]) ∧
+    writeRun "a" (some [1, 2]) [[3], [4, 5]] .normal = (.handle, [1, 2], some [1, 2, 3, 4, 5]) := by
   decide
 
 end P2sh.Props.C21
